@@ -1213,12 +1213,17 @@ func (d *Data) GetFieldTimes(ctx storage.VersionedCtx) (map[string]string, error
 	if !found {
 		return nil, fmt.Errorf("unable to get fields because no in-memory db for neuronjson %q, version %d", d.DataName(), ctx.VersionID())
 	}
-	mdb.mu.RLock()
+	mdb.mu.Lock()
+	if mdb.staleTimes {
+		mdb.fieldTimes = make(map[string]string)
+		d.initFieldTimes(mdb)
+		mdb.staleTimes = false
+	}
 	fieldTimes := make(map[string]string, len(mdb.fieldTimes))
 	for field, timeStr := range mdb.fieldTimes {
 		fieldTimes[field] = timeStr
 	}
-	mdb.mu.RUnlock()
+	mdb.mu.Unlock()
 	return fieldTimes, nil
 }
 
@@ -1476,15 +1481,10 @@ func (d *Data) storeAndUpdate(ctx *datastore.VersionedCtx, keyStr string, newDat
 		for field := range mdb.data[bodyid] {
 			mdb.fields[field]--
 		}
+		mdb.updateFieldTimes(mdb.data[bodyid], newData)
 		mdb.data[bodyid] = newData
 		for field := range newData {
 			mdb.fields[field]++
-			if strings.HasSuffix(field, "_time") {
-				rootField := field[:len(field)-5]
-				if timestamp, isString := newData[field].(string); isString {
-					mdb.fieldTimes[rootField] = timestamp
-				}
-			}
 		}
 		mdb.addBodyID(bodyid)
 		mdb.mu.Unlock()
@@ -1610,6 +1610,7 @@ func (d *Data) DeleteData(ctx storage.VersionedCtx, keyStr string) error {
 			for field := range mdb.data[bodyid] {
 				mdb.fields[field]--
 			}
+			mdb.updateFieldTimes(mdb.data[bodyid], nil)
 			delete(mdb.data, bodyid)
 			mdb.deleteBodyID(bodyid)
 		}
